@@ -82,6 +82,7 @@ abbrev Meta := List MEntry
 inductive Fn
   | id | inc | dbl | neg | modk (k : Nat) | const (c : Int) | pair | fst | snd | sumTup | len
   | rep (k : Nat) | failIf (k r : Nat) | isEven | gt (k : Int) | truthy | failPred (k r : Nat)
+  | bucketNone (k : Nat)
   deriving Repr, DecidableEq, Inhabited
 
 def sumInts : List Val → Except Err Int
@@ -130,6 +131,10 @@ def Fn.eval : Fn → Val → Except Err Val
   | .failPred k r, .int i => if k = 0 then .error .valueError
                               else if i % (k : Int) = (r : Int) then .error .valueError else .ok (Val.ofBool (i % 2 = 0))
   | .failPred _ _, _ => .error .typeError
+  -- a key function that tolerates None: None and multiples of k share bucket 0
+  | .bucketNone k, .int i => if k = 0 then .error .valueError else .ok (.int (i % (k : Int)))
+  | .bucketNone _, .none => .ok (.int 0)
+  | .bucketNone _, _ => .error .typeError
 
 /-- Binary catalogue for `accumulate` (`func(state, x)`). -/
 inductive Fn2
